@@ -1,6 +1,8 @@
 \* C29 PoSA: family bsc, chain configuration A (MCPoSA!SetsA), mode gen
 SPECIFICATION Spec
 CONSTANTS Family = "bsc"
+          Epoch = 0
+          CliqueFixed = FALSE
           Sets <- SetsA
           GenesisSigner = "c"
           G0 = 200
